@@ -12,6 +12,7 @@ CONSTANTS N = 3
  AggBatchFor = "none"
  MemoVerifier = FALSE
  DomainCache = FALSE
+ PeerVerifyLimit = 0
  ReplayPolicy = "admit"
 INVARIANTS TypeOK OnlyValidEnter ValidEnters PeerAllOrNothing
 CHECK_DEADLOCK FALSE
